@@ -207,6 +207,100 @@ func runEngineSelfTests() {
 			expect("E2 guardedBy through a helper and its returned error "+name, guardedBy(f, ef[0], eq), want)
 		}
 	}
+	// control dependence: which non-nil tests decide a registration
+	for name, want := range map[string]int{"GoodRegister": 0, "BadRegister": 1} {
+		if f := fn(name); f != nil {
+			n := 0
+			allInstrs(f, func(in ssa.Instruction) {
+				if mu, ok := in.(*ssa.MapUpdate); ok {
+					for _, iff := range controllingIfs(mu) {
+						if !isNilTest(iff.Cond) {
+							n++
+						}
+					}
+				}
+			})
+			expect("controllingIfs non-nil conditions of the map update in "+name, n == want, true)
+		}
+	}
+	// phi inputs along the reached edges: a named error result merged from several branches
+	for name, want := range map[string]bool{"GoodLookupErr": true, "BadLookupErr": false} {
+		if f := fn(name); f != nil {
+			lk := callsLocal(f, "cases.lookupChecked")
+			nf := guardEdges(f, predCall("cases.isMissing", nil))
+			if len(lk) != 1 {
+				selfErrs = append(selfErrs, "phi-input testdata shape "+name)
+				continue
+			}
+			ok := true
+			for _, t := range errTests(lk[0]) {
+				cu := newCut().edge(nf...)
+				r := reachFromEdge(t.ErrEdge, cu)
+				for _, ret := range returns(f) {
+					if !r.has(ret) {
+						continue
+					}
+					for _, v := range reachedPhiInputs(retVal(ret, 2), r, t.ErrEdge, cu, 0) {
+						if !nonNilErrOperand(v, errValues(lk[0])) {
+							ok = false
+						}
+					}
+				}
+			}
+			expect("reachedPhiInputs: error kept on the not-missing path "+name, ok, want)
+		}
+	}
+	// a self-recursive closure is recognised through the cell it is stored in
+	if f := fn("GoodSearch"); f != nil {
+		n := 0
+		for _, a := range f.AnonFuncs {
+			allInstrs(a, func(in ssa.Instruction) {
+				if call, ok := in.(*ssa.Call); ok {
+					if ld, ok := call.Call.Value.(*ssa.UnOp); ok {
+						if fv, ok := ld.X.(*ssa.FreeVar); ok && cellHoldsClosure(a, fv) {
+							n++
+						}
+					}
+				}
+			})
+		}
+		expect("cellHoldsClosure finds the recursive call of GoodSearch", n == 1, true)
+	}
+	// in-place mutation of a map read from a field
+	for name, want := range map[string]bool{"GoodRelabel": false, "BadRelabel": true} {
+		if f := fn(name); f != nil {
+			hit := false
+			allInstrs(f, func(in ssa.Instruction) {
+				if call, ok := isBuiltinCall(in, "delete"); ok {
+					hit = dependsOn(call.Call.Args[0], func(x ssa.Value) bool { _, n, ok := fieldLoad(x); return ok && n == "Labels" })
+				}
+			})
+			expect("delete on a map read from a Labels field "+name, hit, want)
+		}
+	}
+	// listed once: a second append reachable within the same iteration
+	for name, want := range map[string]bool{"GoodListOnce": false, "BadListTwice": true} {
+		if f := fn(name); f != nil {
+			var apps []ssa.Instruction
+			allInstrs(f, func(in ssa.Instruction) {
+				if call, ok := isBuiltinCall(in, "append"); ok {
+					apps = append(apps, call)
+				}
+			})
+			again := false
+			for _, a := range apps {
+				if hdr := loopHeaderOf(a); hdr != nil {
+					r := t.reachAfter(a, newCut().instr(hdr.Instrs[0]))
+					for _, b := range apps {
+						if r.has(b) {
+							again = true
+						}
+					}
+				}
+			}
+			expect("second append within one iteration "+name, again, want)
+		}
+	}
 	// value-form `a == 0 || b` of a switch case: from the a == 0 edge only the case body is possible
 	if f := fn("GoodSwitchOr"); f != nil {
 		z := guardEdges(f, predEq(func(v ssa.Value) bool { p, ok := v.(*ssa.Parameter); return ok && p.Name() == "a" }, func(v ssa.Value) bool { n, ok := constIntVal(v); return ok && n == 0 }))
